@@ -88,7 +88,7 @@ def main():
       "C20": " Contexts sit at heights 0, 1, 2, the current height and 2^40; fresh deposits that bounce are fresh.",
       "C04": " Hooks that fail after a withdrawal went through, and an L1 denom of the shape 'l2/<64 hex>', are included.",
       "C05": " The creation lattice covers every batch chain type; deletion ranges starting at a final output are tried with 10..140 pending outputs behind it.",
-      "C07": " Failure texts longer than the reason limit in bytes but not in characters are included.",
+      "C07": " Failure texts longer than the reason limit in bytes but not in characters are included; on chains that have not minted yet, empty and unit deposits name module addresses and the deposits after them must still be credited and withdrawable (defect #12).",
       "C13": " Operators are spelled in upper case in every third genesis list and add message; every fifth consensus key is secp256k1.",
       "C15": " Forged entries also carry 0 or -1 in their own power field.",
     }
